@@ -1,0 +1,26 @@
+//go:build verif
+
+package k_nearest_nodes
+
+// Machine-checked contracts, read by the govc verifier under /verif. Comment-only.
+
+// kmem(t, k): the contact k (ID and address) is an element of the bounded set t; kdata(t, k): the data stored with it.
+// The set is a persistent value backed by github.com/benbjohnson/immutable.SortedMap (outside the module): its
+// methods are given the contracts of a bounded ordered set (assumed).
+//@ spec uf kmem(t k_nearest_nodes.Type, k krpc.NodeInfoAddrPort) bool
+//@ spec uf kdata(t k_nearest_nodes.Type, k krpc.NodeInfoAddrPort) interface{}
+
+//@ func (dht/k-nearest-nodes.Type).Full
+//@   trusted
+//@   option uf
+//@   option noalloc
+//@   ensures result == self.Full()
+//@ func (dht/k-nearest-nodes.Type).Farthest
+//@   trusted
+//@   option uf
+//@   option noalloc
+//@   ensures result == self.Farthest()
+//@ func (dht/k-nearest-nodes.Type).Push
+//@   trusted
+//@   ensures only-the-pushed-element-is-new: forall k krpc.NodeInfoAddrPort :: kmem(result, k) ==> kmem(me, k) || k == elem.Key
+//@   ensures data-stays-with-its-contact: forall k krpc.NodeInfoAddrPort :: kmem(result, k) ==> kdata(result, k) == (k == elem.Key ? elem.Data : kdata(me, k))
